@@ -70,7 +70,7 @@ type vpRow struct {
 	Mut     bool     `json:"mut"`
 	Canon   bool     `json:"canon"`
 	Budget  int      `json:"budget"`
-	Verdict string   `json:"verdict"` // ok | err | panic | timeout
+	Verdict string   `json:"verdict"` // ok | err | panic | timeout (crash: set by the driver)
 	Ms      int      `json:"ms"`
 	Same    bool     `json:"same"`
 	NConds  int      `json:"nconds"`
@@ -374,19 +374,10 @@ func vpRun(q string, budget time.Duration) (vpResult, bool) {
 	}
 }
 
-// two parses are compared structurally; the only legitimate difference is the reference
-// time (time.Now() at each Parse): Duration - ReferenceTimeFactor*referenceTime is invariant
-func vpNormalise(q *Query) {
-	ref := q.ReferenceTime.UnixNano()
-	for _, cc := range q.Conditions {
-		for _, c := range cc {
-			if tc, ok := c.(*TimeCondition); ok {
-				tc.Duration -= time.Duration(int64(tc.ReferenceTimeFactor) * ref)
-			}
-		}
-	}
-}
-
+// Two parses are compared structurally.  The only legitimate difference is the reference time
+// (time.Now() at each Parse): the Duration of a TimeCondition built from an absolute time is
+// "time - referenceTime", so Durations may differ by a small integer multiple of the shift of
+// the reference time (the multiple is the number of absolute operands, up to sign).
 func vpSame(a, b vpResult) bool {
 	if (a.err != nil) != (b.err != nil) {
 		return false
@@ -394,8 +385,27 @@ func vpSame(a, b vpResult) bool {
 	if a.err != nil {
 		return a.err.Error() == b.err.Error()
 	}
-	vpNormalise(a.q)
-	vpNormalise(b.q)
+	shift := int64(b.q.ReferenceTime.Sub(a.q.ReferenceTime))
+	if len(a.q.Conditions) != len(b.q.Conditions) {
+		return false
+	}
+	for i := range a.q.Conditions {
+		ca, cb := a.q.Conditions[i], b.q.Conditions[i]
+		if len(ca) != len(cb) {
+			return false
+		}
+		for j := range ca {
+			ta, ok1 := ca[j].(*TimeCondition)
+			tb, ok2 := cb[j].(*TimeCondition)
+			if !ok1 || !ok2 {
+				continue
+			}
+			d := int64(tb.Duration - ta.Duration)
+			if d != 0 && shift != 0 && d%shift == 0 && d/shift >= -16 && d/shift <= 16 {
+				tb.Duration = ta.Duration
+			}
+		}
+	}
 	return reflect.DeepEqual(a.q.Conditions, b.q.Conditions) &&
 		reflect.DeepEqual(a.q.Sorting, b.q.Sorting) &&
 		reflect.DeepEqual(a.q.Limit, b.q.Limit) &&
@@ -503,6 +513,15 @@ func TestVerifParser(t *testing.T) {
 			row := vpRow{ID: rec.ID, Case: c.n, Mut: c.mut, Canon: c.canon, Budget: int(b / time.Millisecond),
 				Text64: base64.StdEncoding.EncodeToString([]byte(c.text)), Show: vpShow(c.text), Same: true}
 			row.LToks, row.LexOK = vpLex(c.text)
+			if p := os.Getenv("VERIF_INFLIGHT"); p != "" {
+				// a fatal runtime error (stack overflow, out of memory) kills the process: the driver
+				// then finds the case that was running here
+				row.Verdict = "inflight"
+				if b, err := json.Marshal(row); err == nil {
+					os.WriteFile(p, b, 0o644)
+				}
+				row.Verdict = ""
+			}
 			r1, returned := vpRun(c.text, b)
 			switch {
 			case !returned:
